@@ -2,7 +2,7 @@ SPECIFICATION Spec
 CONSTANTS
   Threads = {1, 2, 3}
   Deep = 1
-  MaxDepth = 2
+  MaxDepth = 1
   ShallowDepth = 1
   Fams <- OnlyGlobal
   Mirror = FALSE
